@@ -285,9 +285,10 @@ class Ctx:
         return res
 
     # -- verdicts ---------------------------------------------------------------------------
-    def impl_violation(self, what, replay):
-        """The implementation itself breaks the property on a concrete input."""
-        self.violations.append(dict(kind="failing-input", what=what, replay=replay))
+    def impl_violation(self, what, replay, signature=None):
+        """The implementation itself breaks the property on a concrete input.
+        `signature` names the input class of a known finding (matched against known_findings.json)."""
+        self.violations.append(dict(kind="failing-input", what=what, replay=replay, signature=signature))
 
     def corr_break(self, what, replay):
         """Model and implementation disagree (not by itself a property violation)."""
